@@ -103,7 +103,7 @@ PROPS = {
     technique=E1_TECH + " + CFG ownership rule (allocate/deallocate pairing) on instantiations",
     e1=[dict(tu="c19_utl.cpp")],
     e3=[dict(group="C19")],
-    e2=[dict(rule="R-OWN")],
+    e2=[dict(rule="R-OWN"), dict(rule="R-MEMCOPY", dirs=["nmtools/utl"])],
     rule=E1_RULE + "; E2: one instance per instantiated member function of utl::vector<int|double> and per destructor of either/maybe over a non-trivial alternative",
     explanation="class invariant assumed on entry and proved on exit of each mutator quantifies over every history; ownership discipline of utl::vector (allocate/deallocate pairing, deep copy, grow copies before freeing, destructor frees non-null) is a path property of each member function's CFG.",
     not_decided="utl::vector allocate/deallocate pairing, either/maybe with non-trivial alternatives (known finding F4c), small_vector, element-wise equality after static_vector assignment",
@@ -115,6 +115,7 @@ PROPS = {
     note=E1_NOTE,
     technique=E1_TECH,
     e1=[dict(tu="c20_ndarray.cpp")],
+    e2=[dict(rule="R-MEMCOPY", dirs=["nmtools/array/ndarray"])],
     e3=[dict(group="C20")],
     rule=E1_RULE,
     explanation="post-state obligations over a fully symbolic array object and request.",
